@@ -252,8 +252,15 @@ class SimLoop(base_events.BaseEventLoop):
             if h._cancelled:
                 continue
             self.nsteps += 1
+            if self.nsteps == self.step_cap // 2:
+                self.half_mark = (self.world.now, self.world.opcount)
             if self.nsteps > self.step_cap:
-                raise StepCap()
+                e = StepCap()
+                # no virtual time passed and no network operation was issued during the
+                # second half of the steps: the callers spin (livelock), they do not work
+                e.spinning = getattr(self, "half_mark", None) == (self.world.now, self.world.opcount)
+                e.blocked = self.blocked() if e.spinning else []
+                raise e
             if _is_spinner(h):
                 self.spins += 1
             if inj is not None and inj["timing"] == "late":
